@@ -241,7 +241,9 @@ func (r *Resolved) Eval(args map[TypeID]uint32, fail map[int]bool) *EvalResult {
 			}
 			res.Val[u] = out
 		case "value":
-			res.Calls = append(res.Calls, Call{u.PID(), nil})
+			if u.PID() >= 0 {
+				res.Calls = append(res.Calls, Call{u.PID(), nil})
+			}
 			res.Val[u] = []uint32{u.H}
 		case "field":
 			// struct value hash -> field value hash (see mk_ helpers)
